@@ -111,3 +111,113 @@ def apply_rule(table, rule, role):
 
 def crop_table(table, n):
     return AxisTable(table.base_axis, table.forms[:n])
+
+
+# ===================================================================== DTCWT
+# Reference: dtcwt 0.14.0, dtcwt/numpy/lowlevel.py and transform2d.py.  Rules give, for every output
+# position, the list of (filter tag, tap index, input position).
+
+def _reflect_half(i, n):
+    """dtcwt.utils.reflect(i, -0.5, n-0.5): half-sample symmetric extension"""
+    p = 2 * n
+    i %= p
+    return i if i < n else p - 1 - i
+
+
+def colfilter_rule(n, m):
+    """dtcwt colfilter: xe = reflect(arange(-m2, n+m2)), true convolution, 'valid'.  -> rows of (tap, pos)"""
+    m2 = m // 2
+    xe = [_reflect_half(i, n) for i in range(-m2, n + m2)]
+    out = []
+    for k in range(len(xe) - m + 1):
+        out.append([(j, xe[k + m - 1 - j]) for j in range(m)])
+    return out
+
+
+def coldfilt_rule(n, m, positive):
+    """dtcwt coldfilt(X, ha, hb) for n rows (multiple of 4), filters of even length m.
+    rows of (which, tap, pos) with which in {'a','b'} = first / second filter ARGUMENT.
+    `positive`: sign of sum(ha*hb) (decides which tree lands on even output rows)."""
+    if n % 4 or m % 2:
+        raise ValueError('coldfilt needs n % 4 == 0 and even m')
+    xe = [_reflect_half(i, n) for i in range(-m, n + m)]
+    t = list(range(5, n + 2 * m - 2, 4))
+    h = m // 2
+    n_out = len(t) - h + 1
+    ya, yb = [], []
+    for k in range(n_out):
+        ra, rb = [], []
+        for j in range(h):
+            tt = t[k + h - 1 - j]
+            # hao = ha[0::2] (taps 2j), hae = ha[1::2] (taps 2j+1)
+            ra.append(('a', 2 * j, xe[tt - 1]))
+            ra.append(('a', 2 * j + 1, xe[tt - 3]))
+            rb.append(('b', 2 * j, xe[tt]))
+            rb.append(('b', 2 * j + 1, xe[tt - 2]))
+        ya.append(ra)
+        yb.append(rb)
+    out = []
+    for k in range(n_out):
+        if positive:
+            out += [ya[k], yb[k]]
+        else:
+            out += [yb[k], ya[k]]
+    return out
+
+
+def colifilt_rule(n, m, positive):
+    """dtcwt colifilt(X, ha, hb): interpolation by two, four phases."""
+    if n % 2 or m % 2:
+        raise ValueError('colifilt needs even n and even m')
+    m2 = m // 2
+    xe = [_reflect_half(i, n) for i in range(-m2, n + m2)]
+    h = m // 2
+    out = [None] * (2 * n)
+
+    def conv(idx_list, which, parity):
+        # _column_convolve(X[xe[idx]], taps) with taps = h[parity::2]
+        rows = []
+        for k in range(len(idx_list) - h + 1):
+            rows.append([(which, 2 * j + parity, xe[idx_list[k + h - 1 - j]]) for j in range(h)])
+        return rows
+    if m2 % 2 == 0:
+        t = list(range(3, n + m, 2))
+        ta, tb = (t, [x - 1 for x in t]) if positive else ([x - 1 for x in t], t)
+        p0 = conv([x - 2 for x in tb], 'a', 1)      # hae
+        p1 = conv([x - 2 for x in ta], 'b', 1)      # hbe
+        p2 = conv(tb, 'a', 0)                        # hao
+        p3 = conv(ta, 'b', 0)                        # hbo
+    else:
+        t = list(range(2, n + m - 1, 2))
+        ta, tb = (t, [x - 1 for x in t]) if positive else ([x - 1 for x in t], t)
+        p0 = conv(tb, 'a', 0)
+        p1 = conv(ta, 'b', 0)
+        p2 = conv(tb, 'a', 1)
+        p3 = conv(ta, 'b', 1)
+    if not (len(p0) == len(p1) == len(p2) == len(p3) == n // 2):
+        raise ValueError('colifilt phase length %d for n=%d m=%d' % (len(p0), n, m))
+    for i in range(n // 2):
+        out[4 * i] = p0[i]
+        out[4 * i + 1] = p1[i]
+        out[4 * i + 2] = p2[i]
+        out[4 * i + 3] = p3[i]
+    return out
+
+
+def apply_rule2(table, rule, roles):
+    """like apply_rule for rules with a filter tag: roles = {'a': role, 'b': role}"""
+    forms = []
+    for row in rule:
+        d = {}
+        for which, j, i in row:
+            f = table.forms[i]
+            if not f.is_zero():
+                form_add_into(d, f, Poly.sym(roles[which], j))
+        forms.append(Form(d))
+    return AxisTable(table.base_axis, forms)
+
+
+def replicate_ext(table, before, after):
+    """np.vstack((X[:1], X, X[-1:])) style edge replication"""
+    f = table.forms
+    return AxisTable(table.base_axis, [f[0]] * before + list(f) + [f[-1]] * after)
